@@ -543,6 +543,8 @@ class IteratorQueue(IterableQueue[_ValueT]):
     self._enqueue_start = 0
     self._enqueue_stop = 0
     self.ignore_error = ignore_error
+    # The queue feeding this queue's enqueuers (if any), see `piter`.
+    self._upstream = None
 
   @classmethod
   def _default_queue(cls, maxsize: int) -> _QueueLike[_ValueT]:
@@ -785,6 +787,13 @@ class IteratorQueue(IterableQueue[_ValueT]):
       else:
         self._dequeue_lock.notify_all()
     logging.info('chainable: %s', f'"{self.name}" stopping enqueue.')
+    self._maybe_stop_upstream()
+
+  def _maybe_stop_upstream(self):
+    """Stops the queue feeding the enqueuers once this queue failed or stopped."""
+    upstream = self._upstream
+    if upstream is not None and (self._exception or self._stop_requested):
+      upstream.maybe_stop()
 
   def enqueue_from_iterator(self, iterator: Iterable[_ValueT]):
     """Iterates through a generator while enqueue its elements."""
@@ -808,7 +817,10 @@ class IteratorQueue(IterableQueue[_ValueT]):
         logging.exception('chainable: %s', f'"{self.name}" enqueue failed.')
         self._exception = e
         self._stop_enqueue()
+        self._maybe_stop_upstream()
         raise e
+    # Enqueueing ended before the iterator did: nobody consumes its source.
+    self._maybe_stop_upstream()
 
 
 class _ThreadSafeIterator(Iterator[_ValueT]):
@@ -998,6 +1010,7 @@ def piter_multiplex(
     thread_pool: futures.ThreadPoolExecutor,
     buffer_size: int = 0,
     max_batch_size: int = 0,
+    upstream: IteratorQueue | None = None,
 ) -> Iterable[_ValueT]:
   """Call a chain of functions in sequence concurrently with multithreads.
 
@@ -1007,6 +1020,8 @@ def piter_multiplex(
     thread_pool: The thread pool to be used.
     buffer_size: The buffer size of the queue.
     max_batch_size: The max batch size when dequeuing.
+    upstream: The queue the input iterators consume from, if any. It is stopped
+      when the returned queue fails or is stopped, which releases its enqueuers.
 
   Returns:
     An iterable that iterates through the chain of functions.
@@ -1021,6 +1036,7 @@ def piter_multiplex(
       name='piter_multiplex_q',
       max_enqueuer=len(input_iterators),
   )
+  result_queue._upstream = upstream  # pylint: disable=protected-access
   thread_pool = _get_thread_pool(thread_pool)
   for iterator in input_iterators:
     thread_pool.submit(result_queue.enqueue_from_iterator, iterator)
@@ -1055,10 +1071,13 @@ def piter_fn(
 
   if thread_pool is None:
     raise ValueError('thread_pool required, got None.')
+  # A failure or an early stop of the output has to release the threads that
+  # enqueue into the input queue: nobody would consume from it anymore.
+  upstream = input_iterable if isinstance(input_iterable, IteratorQueue) else None
   if input_iterable is not None:
     input_iterable = _ThreadSafeIterator(input_iterable)
   its = [_get_iterate_fn(iter_fn, input_iterable) for _ in range(parallism)]
-  return piter_multiplex(its, thread_pool, buffer_size)
+  return piter_multiplex(its, thread_pool, buffer_size, upstream=upstream)
 
 
 def piter(
